@@ -1129,6 +1129,83 @@ impl BaseElement {
     }
 }
 
+// ---------------------------------------------------------------------------------------------------------------------
+// (de)serialization of the 62-bit field (C12): the encoder writes the CANONICAL integer of the residue (8 bytes, little endian,
+// below the modulus - whatever the internal representative in [0, 2M) is), the decoder accepts exactly the encodings of
+// integers below the modulus, and decoding an encoding returns the same residue. Writer / reader are abstract byte sequences.
+pub uninterp spec fn le8(x: u64) -> Seq<u8>;
+pub uninterp spec fn de8(s: Seq<u8>) -> u64;
+// little-endian encoding of a u64 is 8 bytes long and decodes back (ASSUMED: a fact about to_le_bytes / from_le_bytes)
+#[verifier::external_body]
+pub proof fn ax_le8(x: u64) ensures le8(x).len() == 8, de8(le8(x)) == x {}
+// stands for u64::to_le_bytes (its return type `[u8; size_of::<u64>()]` cannot be named in an assume_specification)
+#[verifier::external_body]
+pub fn u64_to_le_bytes(x: u64) -> (r: [u8; 8]) ensures r@ == le8(x) { x.to_le_bytes() }
+pub struct SerWriter { pub out: Ghost<Seq<u8>> }
+impl SerWriter {
+    // contracts of ByteWriter::write_bytes / write_u64
+    #[verifier::external_body]
+    pub fn write_bytes(&mut self, b: &[u8]) ensures final(self).out@ == old(self).out@ + b@ { unimplemented!() }
+    #[verifier::external_body]
+    pub fn write_u64(&mut self, x: u64) ensures final(self).out@ == old(self).out@ + le8(x) { unimplemented!() }
+}
+pub struct Msg;
+pub enum DeserializationError { InvalidValue(Msg), UnexpectedEOF }
+#[verifier::external_body]
+pub fn err_text() -> Msg { unimplemented!() }
+pub struct SerReader { pub rem: Ghost<Seq<u8>> }
+impl SerReader {
+    // contract of ByteReader::read_u64: the next 8 bytes as a little-endian integer, Err when fewer remain
+    #[verifier::external_body]
+    pub fn read_u64(&mut self) -> (r: Result<u64, DeserializationError>)
+        ensures
+            r is Ok <==> old(self).rem@.len() >= 8,
+            r is Ok ==> r->Ok_0 == de8(old(self).rem@.take(8)) && le8(r->Ok_0) == old(self).rem@.take(8) && final(self).rem@ == old(self).rem@.skip(8),
+    { unimplemented!() }
+}
+
+impl BaseElement {
+    //@@ source math/src/field/f62/mod.rs
+    //@@ extract within="impl Serializable for BaseElement" anchor="fn write_into<W: ByteWriter>(&self, target: &mut W)"
+    //@@ rewrite-re "([A-Za-z_.()0-9]+)\.to_le_bytes\(\)" => "u64_to_le_bytes(\1)"
+    pub fn write_into(&self, target: &mut SerWriter)
+        requires wf(*self)
+        ensures final(target).out@ == old(target).out@ + le8(v(*self) as u64)
+    {
+        /*@@body*/
+    }
+
+    //@@ extract within="impl Deserializable for BaseElement" anchor="fn read_from<R: ByteReader>(source: &mut R) -> Result<Self, DeserializationError>"
+    //@@ rewrite-re "format!\(\s*\"[^\"]*\"\s*\)" => "err_text()"
+    pub fn read_from(source: &mut SerReader) -> (r: Result<BaseElement, DeserializationError>)
+        ensures
+            old(source).rem@.len() < 8 ==> r is Err,
+            r is Ok ==> wf(r->Ok_0) && v(r->Ok_0) < P && le8(v(r->Ok_0) as u64) == old(source).rem@.take(8)
+                && final(source).rem@ == old(source).rem@.skip(8),
+            r is Ok ==> v(r->Ok_0) == de8(old(source).rem@.take(8)),
+            // refused exactly when the 8 bytes encode an integer that is not below the modulus
+            (r is Err && old(source).rem@.len() >= 8) ==> de8(old(source).rem@.take(8)) >= P,
+    {
+        proof { lemma_consts(); }
+        /*@@body*/
+    }
+}
+
+// round trip: what write_into appended for an element e is decoded by read_from to the same residue, 8 bytes consumed
+proof fn lemma_f62_serde_roundtrip(e: BaseElement, rest: Seq<u8>)
+    requires wf(e)
+    ensures
+        (le8(v(e) as u64) + rest).len() >= 8,
+        (le8(v(e) as u64) + rest).take(8) == le8(v(e) as u64),
+        (le8(v(e) as u64) + rest).skip(8) == rest,
+        de8((le8(v(e) as u64) + rest).take(8)) == v(e),      // so read_from cannot refuse it (v(e) < P) and returns this residue
+{
+    let x = v(e) as u64;
+    ax_le8(x);
+    assert((le8(x) + rest).take(8) =~= le8(x));
+    assert((le8(x) + rest).skip(8) =~= rest);
+}
+
 proof fn f62_canary_must_fail()
     ensures redc(5) == 5
 {
